@@ -13,34 +13,17 @@
    (obj_of_event). *)
 From Coq Require Import Lia ZifyBool.
 From PJ.Model Require Import Base Terms Encoder Streams Decoder.
-From PJ.Tie Require Import PyPrims StrN OptionsTie DecodeTie DecoderBase DecoderTie.
-From PJ.Gen Require Import LookupDecGen OptionsGen DecodeGen GenericParseGen.
+From PJ.Tie Require Import PyPrims StrN OptionsTie DecodeTie DecoderBase DecoderTie GenericTerms.
+From PJ.Gen Require Import LookupDecGen OptionsGen DecodeGen GenericSinkGen GenericParseGen.
 Local Open Scope Z_scope.
 
 Notation GA := (Adapter SN).
-Notation gobj := (obj SN).
 
-(* ------------------------------------------------------------------ values: the object of a term, of an event *)
-Fixpoint obj_of_term (t : term) : gobj :=
-  match t with
-  | TIri s => O_IRI SN s
-  | TBnode l => O_BlankNode SN l
-  | TLit lex lang dt => O_Literal SN lex lang dt
-  | TTriple s p o => O_Triple SN (obj_of_term s) (obj_of_term p) (obj_of_term o)
-  | TDefault => O__DefaultGraph SN
-  | TOther => O_None SN
-  end.
-Definition obj_of_event (e : event) : gobj :=
-  match e with
-  | ETriple s p o => O_Triple SN (obj_of_term s) (obj_of_term p) (obj_of_term o)
-  | EQuad s p o g => O_Quad SN (obj_of_term s) (obj_of_term p) (obj_of_term o) (obj_of_term g)
-  | EPrefix name iri => O_Prefix SN name (O_IRI SN iri)
-  end.
 Definition RTg (v : gobj) (mv : aval) : Prop :=
   match mv with
   | ATerm t => v = obj_of_term t
   | AEv e => v = obj_of_event e
-  | AUnit => v = O_None SN
+  | AUnit => v = (@O_None SN)
   end.
 
 (* ------------------------------------------------------------------ states *)
